@@ -67,6 +67,6 @@ AllRedir == {<<"R", "https">>, <<"R", "http">>, <<"S", "https">>, <<"A", "http">
              <<"P", "https">>, <<"Ac", "http">>}
 CoreRedir == {<<"R", "https">>, <<"S", "https">>, <<"A", "http">>, <<"P", "https">>, <<"Ac", "http">>}
 AllLoc == {<<"P", "https">>, <<"A", "http">>}
-AllTok == {"tokr", "deny", "err"}
+AllTok == {"tokr", "deny", "err", "bad"}
 TaRealm == {<<"Ta", "https">>}
 =============================================================================
